@@ -137,22 +137,29 @@ func uniqueFailure(g *gen.G, mode string, d, b, slot int) request {
 		ch := "abcdeghijklmopqrsuvwxyzABCDEFGHIJKLMNOPQRSTUVWXYZ"[(slot/2+g.Intn(40))%49]
 		return request{"POST", []byte(fmt.Sprintf(`{"inputHash":"0x1","preRoot":%c%d}`, ch, slot)), "unique:bad-char", nil}
 	}
-	extra := 1 + slot/2 + g.Intn(3)*8
+	// exactly b + extra commitments whatever the generated batch held (its class may itself be a
+	// short or long list), so the count in the error text is this request's own
+	want := b + 1 + slot/2 + g.Intn(3)*8
+	resize := func(xs []big.Int) []big.Int {
+		for len(xs) < want {
+			xs = append(xs, *big.NewInt(int64(len(xs) + 1)))
+		}
+		return xs[:want]
+	}
 	var doc []byte
+	var hash *big.Int
 	if mode == server.InsertionMode {
 		p, _ := batchgen.Insertion(g, d, b)
-		for i := 0; i < extra; i++ {
-			p.IdComms = append(p.IdComms, *big.NewInt(int64(i + 1)))
-		}
+		p.IdComms = resize(p.IdComms)
 		doc, _ = json.Marshal(p)
+		hash = new(big.Int).Set(&p.InputHash)
 	} else {
 		p, _ := batchgen.Deletion(g, d, b)
-		for i := 0; i < extra; i++ {
-			p.IdComms = append(p.IdComms, *big.NewInt(int64(i + 1)))
-		}
+		p.IdComms = resize(p.IdComms)
 		doc, _ = json.Marshal(p)
+		hash = new(big.Int).Set(&p.InputHash)
 	}
-	return request{"POST", doc, "unique:wrong-count", nil}
+	return request{"POST", doc, "unique:wrong-count", hash}
 }
 
 func do(client *http.Client, url string, rq request) (int, []byte, error) {
